@@ -1,0 +1,317 @@
+//! Read-only verification hooks. Compiled only with `--cfg rust_cc_verif`.
+//!
+//! Nothing in this module changes the behaviour of the collector: it exposes snapshots of the
+//! internal per-object counters and marks, the possible-cycles buffer, the collector flags and raw
+//! entry points to the leaf arithmetic (counter words, trigger policy), so that an external
+//! harness can compare them with a model.
+
+#![allow(missing_docs, dead_code, clippy::missing_safety_doc)]
+
+use alloc::vec::Vec;
+use core::ptr::NonNull;
+
+use crate::cc::CcBox;
+use crate::counter_marker::CounterMarker;
+use crate::{Cc, Trace};
+
+/// Snapshot of the header of one managed allocation.
+#[derive(Copy, Clone, Debug, PartialEq, Eq)]
+pub struct ObjSnap {
+    /// Raw first 16-bit word (mark + tracing counter).
+    pub tracing_word: u16,
+    /// Raw second 16-bit word (side-record bit, finalized bit, strong counter).
+    pub counter_word: u16,
+    /// `next` link is `Some`.
+    pub has_next: bool,
+    /// `prev` link is `Some`.
+    pub has_prev: bool,
+}
+
+#[inline]
+fn snap_box(b: &CcBox<()>) -> ObjSnap {
+    let (tw, cw) = b.counter_marker().verif_words();
+    unsafe {
+        ObjSnap {
+            tracing_word: tw,
+            counter_word: cw,
+            has_next: (*b.get_next()).is_some(),
+            has_prev: (*b.get_prev()).is_some(),
+        }
+    }
+}
+
+/// Header snapshot through a live `Cc`.
+pub fn snap_cc<T: ?Sized + Trace>(cc: &Cc<T>) -> ObjSnap {
+    let p: NonNull<CcBox<()>> = cc.verif_inner().cast();
+    snap_box(unsafe { p.as_ref() })
+}
+
+/// Header snapshot from the raw address of a managed allocation.
+///
+/// # Safety
+/// `addr` must be the address of a `CcBox` that is still allocated.
+pub unsafe fn snap_raw(addr: *const ()) -> ObjSnap {
+    snap_box(&*(addr as *const CcBox<()>))
+}
+
+/// Address of the managed allocation.
+pub fn box_addr<T: ?Sized + Trace>(cc: &Cc<T>) -> *const () {
+    cc.verif_inner().as_ptr() as *const ()
+}
+
+/// Layout `(size, align)` the crate will use to free the allocation of `cc`.
+pub fn box_layout<T: ?Sized + Trace>(cc: &Cc<T>) -> (usize, usize) {
+    let l = cc.inner().layout();
+    (l.size(), l.align())
+}
+
+/// `(size, align)` of the allocation header alone (`CcBox<()>`).
+pub fn header_layout() -> (usize, usize) {
+    (core::mem::size_of::<CcBox<()>>(), core::mem::align_of::<CcBox<()>>())
+}
+
+/// `(size, align)` of `CcBox<T>`.
+pub fn ccbox_layout<T: Trace + 'static>() -> (usize, usize) {
+    (core::mem::size_of::<CcBox<T>>(), core::mem::align_of::<CcBox<T>>())
+}
+
+/// Address of the weak side record, if it was ever created.
+#[cfg(feature = "weak-ptrs")]
+pub fn side_addr<T: ?Sized + Trace>(cc: &Cc<T>) -> Option<*const ()> {
+    if cc.inner().counter_marker().has_allocated_for_metadata() {
+        Some(unsafe { cc.inner().get_metadata_unchecked() }.as_ptr() as *const ())
+    } else {
+        None
+    }
+}
+
+/// Raw weak word of the side record of `cc`, if it was ever created.
+#[cfg(feature = "weak-ptrs")]
+pub fn side_word<T: ?Sized + Trace>(cc: &Cc<T>) -> Option<u16> {
+    if cc.inner().counter_marker().has_allocated_for_metadata() {
+        Some(unsafe { cc.inner().get_metadata_unchecked().as_ref() }.weak_counter_marker.verif_word())
+    } else {
+        None
+    }
+}
+
+/// `(side record address, box address)` of a `Weak`; the first is `None` for `Weak::new()`.
+#[cfg(feature = "weak-ptrs")]
+pub fn weak_addrs<T: ?Sized + Trace>(w: &crate::weak::Weak<T>) -> (Option<*const ()>, *const ()) {
+    w.verif_addrs()
+}
+
+/// Raw weak word read through a `Weak`.
+#[cfg(feature = "weak-ptrs")]
+pub fn weak_word<T: ?Sized + Trace>(w: &crate::weak::Weak<T>) -> Option<u16> {
+    w.verif_word()
+}
+
+/// `(collecting, finalizing, dropping)`; `None` when the thread-local state is gone.
+pub fn flags() -> Option<(bool, bool, bool)> {
+    crate::state::try_state(|s| {
+        #[cfg(feature = "finalization")]
+        let f = s.is_finalizing();
+        #[cfg(not(feature = "finalization"))]
+        let f = false;
+        (s.is_collecting(), f, s.is_dropping())
+    })
+    .ok()
+}
+
+/// Result of walking the possible-cycles buffer.
+#[derive(Clone, Debug)]
+pub struct BufWalk {
+    /// Addresses of the buffered allocations, front first.
+    pub addrs: Vec<*const ()>,
+    /// Cached size.
+    pub size: usize,
+    /// `prev`/`next` links are mutually consistent and the first element has no `prev`.
+    pub links_ok: bool,
+}
+
+/// Walks the buffer (at most `limit` elements); `None` when the thread-local is gone.
+pub fn buffer_walk(limit: usize) -> Option<BufWalk> {
+    crate::POSSIBLE_CYCLES
+        .try_with(|pc| {
+            let mut addrs = Vec::new();
+            let mut links_ok = true;
+            let mut prev: Option<NonNull<CcBox<()>>> = None;
+            let mut cur = pc.first();
+            while let Some(p) = cur {
+                if addrs.len() >= limit {
+                    links_ok = false;
+                    break;
+                }
+                addrs.push(p.as_ptr() as *const ());
+                unsafe {
+                    if *p.as_ref().get_prev() != prev {
+                        links_ok = false;
+                    }
+                    prev = Some(p);
+                    cur = *p.as_ref().get_next();
+                }
+            }
+            BufWalk { addrs, size: pc.size(), links_ok }
+        })
+        .ok()
+}
+
+/// Current byte threshold of the automatic collection policy.
+#[cfg(feature = "auto-collect")]
+pub fn bytes_threshold() -> Option<usize> {
+    crate::config::config(|c| c.verif_bytes_threshold()).ok()
+}
+
+/// Raw entry points to the leaf arithmetic, applied to explicit words.
+pub mod leaf {
+    use super::*;
+
+    /// Operations on the two counter words. Returns `(tracing_word, counter_word, result)`;
+    /// `result` is 0/1 for `Ok`/`Err` or `false`/`true`, or the value read.
+    pub fn cm_op(op: u8, tracing_word: u16, counter_word: u16) -> (u16, u16, u32) {
+        let cm = CounterMarker::verif_from_words(tracing_word, counter_word);
+        let r: u32 = match op {
+            0 => cm.increment_counter().is_err() as u32,
+            1 => cm.decrement_counter().is_err() as u32,
+            2 => cm.increment_tracing_counter().is_err() as u32,
+            3 => cm.counter() as u32,
+            4 => cm.tracing_counter() as u32,
+            5 => {
+                cm.reset_tracing_counter();
+                0
+            },
+            #[cfg(feature = "finalization")]
+            6 => cm.needs_finalization() as u32,
+            #[cfg(feature = "finalization")]
+            7 => {
+                cm.set_finalized(true);
+                0
+            },
+            #[cfg(feature = "finalization")]
+            8 => {
+                cm.set_finalized(false);
+                0
+            },
+            #[cfg(feature = "weak-ptrs")]
+            9 => cm.has_allocated_for_metadata() as u32,
+            #[cfg(feature = "weak-ptrs")]
+            10 => {
+                cm.set_allocated_for_metadata(true);
+                0
+            },
+            #[cfg(feature = "weak-ptrs")]
+            11 => cm.is_dropped() as u32,
+            #[cfg(feature = "weak-ptrs")]
+            12 => {
+                cm.set_dropped(true);
+                0
+            },
+            13 => cm.is_not_marked() as u32,
+            14 => cm.is_in_possible_cycles() as u32,
+            15 => cm.is_in_list() as u32,
+            16 => cm.is_in_list_or_queue() as u32,
+            17 => {
+                cm.mark(crate::counter_marker::Mark::NonMarked);
+                0
+            },
+            18 => {
+                cm.mark(crate::counter_marker::Mark::PossibleCycles);
+                0
+            },
+            19 => {
+                cm.mark(crate::counter_marker::Mark::InList);
+                0
+            },
+            20 => {
+                cm.mark(crate::counter_marker::Mark::InQueue);
+                0
+            },
+            _ => u32::MAX,
+        };
+        let (tw, cw) = cm.verif_words();
+        (tw, cw, r)
+    }
+
+    /// `CounterMarker::new_with_counter_to_one`.
+    pub fn cm_new(already_finalized: bool) -> (u16, u16) {
+        CounterMarker::new_with_counter_to_one(already_finalized).verif_words()
+    }
+
+    /// The maximum strong count.
+    pub fn cm_max() -> u16 {
+        crate::counter_marker::MAX
+    }
+
+    /// Operations on the weak word. Returns `(word, result)`.
+    #[cfg(feature = "weak-ptrs")]
+    pub fn wcm_op(op: u8, word: u16) -> (u16, u32) {
+        use crate::weak::weak_counter_marker::WeakCounterMarker;
+        let w = WeakCounterMarker::verif_from_word(word);
+        let r: u32 = match op {
+            0 => w.increment_counter().is_err() as u32,
+            1 => w.decrement_counter().is_err() as u32,
+            2 => w.counter() as u32,
+            3 => w.is_accessible() as u32,
+            4 => {
+                w.set_accessible(true);
+                0
+            },
+            5 => {
+                w.set_accessible(false);
+                0
+            },
+            _ => u32::MAX,
+        };
+        (w.verif_word(), r)
+    }
+
+    /// `WeakCounterMarker::new`.
+    #[cfg(feature = "weak-ptrs")]
+    pub fn wcm_new(accessible: bool) -> u16 {
+        crate::weak::weak_counter_marker::WeakCounterMarker::new(accessible).verif_word()
+    }
+
+    /// The maximum weak count.
+    #[cfg(feature = "weak-ptrs")]
+    pub fn wcm_max() -> u16 {
+        crate::weak::weak_counter_marker::MAX
+    }
+
+    /// `State::is_tracing` on explicit flags.
+    pub fn is_tracing(collecting: bool, finalizing: bool, dropping: bool) -> bool {
+        crate::state::State::verif_new(collecting, finalizing, dropping, 0).is_tracing()
+    }
+
+    /// `Config::should_collect` on explicit values.
+    #[cfg(feature = "auto-collect")]
+    pub fn should_collect(
+        auto_collect: bool,
+        bytes_threshold: usize,
+        buffered_threshold: usize, // 0 = None
+        allocated_bytes: usize,
+        buffered: usize,
+    ) -> bool {
+        let mut c = crate::config::Config::verif_new(bytes_threshold, 0.0, buffered_threshold, auto_collect);
+        let s = crate::state::State::verif_new(false, false, false, allocated_bytes);
+        let pc = crate::lists::PossibleCycles::verif_with_size(buffered);
+        let r = c.should_collect(&s, &pc);
+        pc.verif_clear_size();
+        r
+    }
+
+    /// `Config::adjust` on explicit values; returns the new byte threshold.
+    #[cfg(feature = "auto-collect")]
+    pub fn adjust(bytes_threshold: usize, adjustment_percent: f64, allocated_bytes: usize) -> usize {
+        let mut c = crate::config::Config::verif_new(bytes_threshold, adjustment_percent, 0, true);
+        let s = crate::state::State::verif_new(false, false, false, allocated_bytes);
+        c.adjust(&s);
+        c.verif_bytes_threshold()
+    }
+
+    /// The initial byte threshold.
+    #[cfg(feature = "auto-collect")]
+    pub fn default_bytes_threshold() -> usize {
+        crate::config::Config::default().verif_bytes_threshold()
+    }
+}
